@@ -48,6 +48,7 @@ type Exec struct {
 	texts          map[string]textMeaning // abs_text.go
 	WriterContract bool                   // unknown io.Writer: split each Write into (all accepted, nil) / (short, error)
 	FmtModel       bool                   // abs_fmt.go: model what fmt/strconv/hex produce as texts
+	ReaderMayFail  bool                   // every Read of a modelled bytes.Reader may instead fail with a sticky non-EOF error (C10.6)
 	Stats          struct{ Instrs, Calls, Forks, Widen, CopyLoops int }
 }
 
@@ -312,6 +313,22 @@ func (ex *Exec) enter(fr *Frame, st *State, b *ssa.BasicBlock, prev *ssa.BasicBl
 	}
 	if isHead && prev != nil && ex.WidenAtEntry {
 		li := ex.loopHeads(fr.fn)[b]
+		if tb := shiftDownBound(li); tb > 0 {
+			// a loop that shifts / divides a counter down to zero runs at most once per bit: it is unrolled completely
+			// (no generic iteration, nothing forgotten); a path that would need more iterations does not exist
+			if !li.Body[prev] {
+				fr.visits[b] = 0
+			} else {
+				fr.visits[b]++
+				if fr.visits[b] > tb+1 {
+					return nil
+				}
+			}
+			for i, phi := range phis {
+				fr.regs[phi] = vals[i]
+			}
+			return ex.execFrom(fr, st, b, firstNonPhi(b), prev)
+		}
 		if !li.Body[prev] {
 			// loop entry: generic iteration first, then the concrete prefix
 			st2, fr2 := st.Clone(), fr.clone()
@@ -2193,4 +2210,59 @@ func pointerFree(t types.Type) bool {
 		return true
 	}
 	return false
+}
+
+// shiftDownBound: the loop leaves through "x > 0" / "x != 0" on a phi x whose only update in the loop is x >> k (k >= 1) or
+// x / d (d >= 2): at most one iteration per bit of x. Returns that bound, 0 if the loop has another shape.
+func shiftDownBound(li *loopInfo) int {
+	for b := range li.Body {
+		if len(b.Instrs) == 0 {
+			continue
+		}
+		iff, ok := b.Instrs[len(b.Instrs)-1].(*ssa.If)
+		if !ok {
+			continue
+		}
+		exits := false
+		for _, s := range b.Succs {
+			if !li.Body[s] {
+				exits = true
+			}
+		}
+		cmp, ok := iff.Cond.(*ssa.BinOp)
+		if !exits || !ok || (cmp.Op != token.GTR && cmp.Op != token.NEQ) {
+			continue
+		}
+		phi, ok := cmp.X.(*ssa.Phi)
+		if !ok || !li.Body[phi.Block()] {
+			continue
+		}
+		if k, ok := constInt(cmp.Y); !ok || k != 0 {
+			continue
+		}
+		w, signed, okT := intTypeInfo(phi.Type())
+		if !okT || (signed && cmp.Op == token.NEQ) {
+			continue
+		}
+		good := true
+		for i, e := range phi.Edges {
+			if !li.Body[phi.Block().Preds[i]] {
+				continue
+			}
+			bo, ok := e.(*ssa.BinOp)
+			if !ok || bo.X != ssa.Value(phi) {
+				good = false
+				break
+			}
+			d, ok := constInt(bo.Y)
+			if !ok || !((bo.Op == token.SHR && d >= 1) || (bo.Op == token.QUO && d >= 2)) {
+				good = false
+				break
+			}
+		}
+		if good {
+			return w
+		}
+	}
+	return 0
 }
